@@ -206,7 +206,8 @@ theorem lookupAll_activeVars {c : Ctx} {names : List (Option String)} (ok : CtxO
 theorem evalSteps_eq {c : Ctx} {names : List (Option String)} (ok : CtxOK c names) (σ : World)
     (parent : Option String) (hall0 : c.activeIdx 0 = List.range c.n)
     (hfirst0 : ∀ b ∈ c.activeIdx 0, usesPrev ((specCfgOf σ parent names c).acts b 0) = false)
-    (hn : 0 < c.n) :
+    (hn : 0 < c.n) (hnt : c.kind.isAsync = true → c.kind.isTry = false)
+    (htrT : c.kind.isTry = true → c.transpose = true) :
     ∀ (rem k : Nat) (env : Env) (vals : List (Option Value)) (steps : Steps),
       Inv c names k env vals → genSteps c rem k = .ok steps →
       evalSteps (cfgOf σ parent names) env steps =
@@ -220,7 +221,7 @@ theorem evalSteps_eq {c : Ctx} {names : List (Option String)} (ok : CtxOK c name
     · cases hgen
     · rename_i s hs
       cases hgen
-      have hstep := evalStep_eq ok σ parent k env vals hinv s hs (fun h0 => by subst h0; exact hfirst0)
+      have hstep := evalStep_eq ok σ parent k env vals hinv s hs (fun h0 => by subst h0; exact hfirst0) hnt
       obtain ⟨hk, -, -, -, -, -⟩ := genStep_shape ok σ parent k s hs
       simp only [evalSteps, hstep, M.andThen_assoc, M.ret_andThen]
       rw [specLoop]
@@ -251,7 +252,7 @@ theorem evalSteps_eq {c : Ctx} {names : List (Option String)} (ok : CtxOK c name
       have hpl : (c.activePats k).length = news.length := by rw [activePats_length ok k, hnl]
       simp only [hk, hf1, hsc]
       by_cases htry : c.kind.isTry = true
-      · have htr := ok.transposeTry htry
+      · have htr := htrT htry
         simp only [genFinal, htr, htry, Bool.and_self, if_true, evalSteps]
         rw [extract_mkTuple _ _ _ hpl, M.ret_andThen]
         have hvne : c.vars ≠ [] := by
@@ -277,7 +278,7 @@ theorem evalSteps_eq {c : Ctx} {names : List (Option String)} (ok : CtxOK c name
       · cases hgen
       · rename_i rest hrest
         cases hgen
-        have hstep := evalStep_eq ok σ parent k env vals hinv s hs (fun h0 => by subst h0; exact hfirst0)
+        have hstep := evalStep_eq ok σ parent k env vals hinv s hs (fun h0 => by subst h0; exact hfirst0) hnt
         obtain ⟨hk, -, -, -, -, -⟩ := genStep_shape ok σ parent k s hs
         simp only [evalSteps, hstep, M.andThen_assoc, M.ret_andThen]
         rw [specLoop]
@@ -308,7 +309,7 @@ theorem evalSteps_eq {c : Ctx} {names : List (Option String)} (ok : CtxOK c name
         have hrec := ih (k + 1) _ _ rest hinv' hrest
         simp only [hk, hsc]
         by_cases htry : c.kind.isTry = true
-        · have htr := ok.transposeTry htry
+        · have htr := htrT htry
           simp only [genLink, htr, htry, if_true]
           rw [extract_mkTuple _ _ _ hpl, M.ret_andThen, lookupAll_activeVars ok k news hnl]
           simp only [M.ofOption_some, M.ret_andThen]
